@@ -53,6 +53,8 @@ def initial_classes(kind, R, C):
         out += [
             ("percol", per, [per]),
             ("percol-short", per[:-1], None),
+            ("percol-one", [5.0], None if C > 1 else [[5.0]]),
+            ("percol-one-np2d", ("np", [[5.0]]) if C > 1 else [5.0], None if C > 1 else [[5.0]]),
             ("percol-long", per + [1.0], None),
             ("percol-tiny", [3e-9] + per[1:], [[3e-9] + per[1:]]),
             ("percol-nan", [NAN] + per[1:], None),
@@ -83,6 +85,7 @@ class Harness(cm.BaseB):
         out = [{"k": "sizes", "cls": c} for c in ("Labware", "Trough")]
         for kind, R, C in (("plate", 2, 3), ("plate", 1, 3), ("plate", 3, 1), ("trough", 2, 3), ("trough", 4, 1), ("plate", 1, 1)):
             out.append({"k": "prod", "kind": kind, "R": R, "C": C})
+        out.append({"k": "pairs"})
         return out
 
     def cases(self, chunk):
@@ -96,6 +99,11 @@ class Harness(cm.BaseB):
                 for v in range(1, 30):
                     yield {"k": "size", "cls": "Trough", "vraw": v, "c": 2}
             return
+        if chunk["k"] == "pairs":
+            for R, C in ((2, 3), (8, 12), (16, 24), (4, 1), (1, 3), (8, 1), (26, 2)):
+                for order in ("plate,trough", "trough,plate", "plate,plate", "trough,trough", "trough,plate,trough"):
+                    yield {"k": "pair", "R": R, "C": C, "order": order}
+            return
         kind, R, C = chunk["kind"], chunk["R"], chunk["C"]
         ninit = len(initial_classes(kind, R, C))
         for li in range(len(LIMITS_C)):
@@ -106,7 +114,25 @@ class Harness(cm.BaseB):
     def one(self, case):
         if case["k"] == "size":
             return self.one_size(case)
+        if case["k"] == "pair":
+            return self.one_pair(case)
         return self.one_prod(case)
+
+    def one_pair(self, case):
+        """several labware with the same dimensions in one process: every one stays consistent"""
+        cm.clear_caches()
+        R, C = case["R"], case["C"]
+        objs = []
+        for i, kind in enumerate(case["order"].split(",")):
+            if kind == "plate":
+                objs.append((kind, rt.Labware(f"L{i}", R, C, min_volume=0, max_volume=10, initial_volumes=5)))
+            else:
+                objs.append((kind, rt.Trough(f"L{i}", R, C, min_volume=0, max_volume=10, initial_volumes=5)))
+        V = []
+        for i, (kind, lw) in enumerate(objs):
+            real_r = 1 if kind == "trough" else R
+            V += self.verify(lw, kind, R, C, [[5.0] * C for _ in range(real_r)], 0, 10, {}, f"{kind} {R}x{C} (#{i + 1} of {case['order']})")
+        return "pair", repr(case), V
 
     # ------------------------------------------------------------------
     def verify(self, lw, kind, R, C, expect, mn, mx, names_expect, what):
